@@ -69,6 +69,13 @@ func extractC11(repo string, o *Out) {
 	o.nat("maxLevel", p.ConstU(o, "ZSKIPLIST_MAXLEVEL"), "zskiplist.go const ZSKIPLIST_MAXLEVEL")
 	o.zlStrList("skipListMethods", zlExportedMethods(p, "ZSkipList"), "exported methods of ZSkipList (zskiplist.go)")
 	o.zlStrList("sortedSetMethods", zlExportedMethods(p, "SortedSet"), "exported methods of SortedSet (zset.go), without the verif probes")
+	for _, m := range []string{"deleteNode", "randLevel"} {
+		fd := p.Func("ZSkipList", m)
+		if fd == nil {
+			o.problem("method ZSkipList.%s not found", m)
+		}
+		o.zlStrList("cmpL"+strings.Title(m), zlComparisons(p, fd), "comparisons of ZSkipList."+m+" in source order")
+	}
 	for _, m := range []string{"Insert", "Delete", "DeleteRangeByRank", "DeleteRangeByScore", "GetRank", "GetElementByRank", "IsInRange", "FirstInRange", "LastInRange"} {
 		fd := p.Func("ZSkipList", m)
 		if fd == nil {
